@@ -41,10 +41,12 @@ CHECKS = {
         text="Coq theorems C14_main (for every raw stack, any depth, any markers, with/without the extra label frame: < 500 unchanged; otherwise 200 root frames, "
              "one placeholder whose count k is exactly the number removed, a positive multiple of 200, then 100..300 leaf frames verbatim; kept + elided = depth; "
              "output <= 501), C14_limit_char (the iterator for any n, hint and stream), C14_limit_constant (the regenerated source constant is 200) and "
-             "C14_checker_accepts_model. Tied to the code by driving ProcessSampleData::flush_samples_to_profile (samply/src/shared compiled in by #[path]) with "
+             "C14_checker_accepts_model. The model is tied to samply/src/shared/stack_depth_limiting_frame_iter.rs in both ways: (a) tools/xlate_fl.py translates should_elide_frames, the state enum, new() and next() into Gallina on every run "
+             "(Generated/FrameLimitGen.v; usize subtraction / division checked as in a debug build) and C14_translation_agrees proves that new() followed by next() until None yields exactly the model's output for every length hint and every stream, without a panic "
+             "(C14_translation_arith_safe), so C14_main_of_translation is the property as a theorem about the current source; (b) by driving ProcessSampleData::flush_samples_to_profile (samply/src/shared compiled in by #[path]) with "
              "multi-sample flushes, and end to end by converting perf.data recordings whose call chains have the same depths with `samply import`, evaluating the property-text checker inside Coq on the serialized stacks. F-C14 (marker counted in the hint) was found, fixed and stays in corpus/C14.",
-        note="Trusted: Coq kernel; harness h_samply and its JSON read-back; tools/consts.py. Not covered: JS/ART label insertion (more frames than the hint).",
-        technique="Coq proof (characterisation of the three-state iterator by induction, arithmetic by lia) + differential correspondence run with the property-text checker evaluated by vm_compute",
+        note="Trusted: Coq kernel; tools/xlate_fl.py (its reading of the Rust subset: references transparent, `?` on the inner iterator ends the call with the fields as mutated so far, the label frame as the symbolic value Placeholder <count> after checking the format string); harness h_samply and its JSON read-back; tools/consts.py. Not covered: JS/ART label insertion (more frames than the hint).",
+        technique="Coq proof (characterisation of the three-state iterator by induction, arithmetic by lia) over a model that is proved equal to a translation of the source regenerated on every run + differential correspondence run with the property-text checker evaluated by vm_compute",
         design="4/C14"),
     "C13": dict(
         text="Coq theorem C13_run_is_spec: for every chunk size > 0, every file and EVERY sequence of read_bytes_at / read_bytes_at_until calls, each call returns exactly "
